@@ -407,6 +407,7 @@ pub fn property() -> Property {
             Tier::Thorough => 1500.0,
         },
         info: || PropInfo {
+            floors: vec![],
             rule: "one run = a real reader (client or server mode, private or public IP plan) bootstrapped into 2..10 scripted peers of which 1..8 are Byzantine; each Byzantine peer draws one forgery per read kind from the catalogue (immutable: 6, mutable: 9, signed peers: 7 forgeries incl. valid signatures under another key, other salt, altered value/seq, corrupt k/sig, mixed lists); 1..6 read API calls, sequential or overlapping; every surfaced item is re-verified by the harness and authentic replicas must surface. Non-trivial = a Byzantine peer was actually queried; distinct = hash of the delivery order at the reader".into(),
             assumptions: vec!["loss-free network (latencies below the request timeout)".into(), "replaying an older authentic item is not a forgery".into(), "ed25519-dalek / sha1_smol trusted for re-verification".into()],
         },
